@@ -20,12 +20,17 @@
      xr rr   extension / reserved ranges, sequences of <<lo, hi>> inclusive   (message)
      rn      reserved names                                              (message)
      cs ss   client / server streaming                                   (method)
+     alias   `option allow_alias = true;`                                (enum)
+     dep     `[deprecated = true]`                                       (field, ext)
+     grp gof a GROUP `label group Zg = n { ... }` is two adjacent declarations: the message Zg (grp = TRUE,
+             its members are the group's fields) and the field zg (gof = index of that message, type = Zg)
    Enum values carry their number in `num`.  A file carries x = TRUE (renderer: explicit
    conventions, see harness/_common/ws). *)
 EXTENDS ProtoLang
 
 XD == [label |-> "", scalar |-> "", mapkey |-> "", dflt |-> "", json |-> "",
-       xr |-> <<>>, rr |-> <<>>, rn |-> <<>>, cs |-> FALSE, ss |-> FALSE]
+       xr |-> <<>>, rr |-> <<>>, rn |-> <<>>, cs |-> FALSE, ss |-> FALSE, alias |-> FALSE, dep |-> FALSE,
+       grp |-> FALSE, gof |-> 0]
 X(d) == d @@ XD
 XMsg(n, p) == X(Msg(n, p))
 XEnum(n, p) == X(Enum(n, p))
@@ -41,6 +46,12 @@ XMap(n, p, num, key, ty) == [XFld(n, p, num, "", ty) EXCEPT !.mapkey = key]
 XExt(n, p, num, label, extendee, ty) ==
   [X(Ext(n, p, num, extendee, ty.sp)) EXCEPT !.label = label, !.scalar = ty.scalar]
 XMtd(n, p, in, out) == X(Mtd(n, p, in, out))
+(* N-group-field-name: the field of group Zg is named zg (the group name in lower case); a table *)
+GroupFieldName == [Zg |-> "zg", A |-> "a", M |-> "m"]
+(* the two declarations of a group whose message gets index idx *)
+XGroup(name, p, num, label, idx) ==
+  << [XMsg(name, p) EXCEPT !.grp = TRUE],
+     [XFld(GroupFieldName[name], p, num, label, TRef(Rel(<<name>>))) EXCEPT !.gof = idx] >>
 XFile(path, pkg, syntax, imports, decls) == FileRec(path, pkg, syntax, imports, decls) @@ [x |-> TRUE]
 
 (* google/protobuf/descriptor.proto in the extended record shape *)
@@ -138,7 +149,9 @@ SymbolBroken(ws) ==
    V-oneof-label       protoc: Fields in oneofs must not have labels (required / optional / repeated).
    V-map-label         protoc: Field labels (required/optional/repeated) are not allowed on map fields.
    V-map-in-oneof      protoc: Map fields are not allowed in oneofs.
-   V-ext-required      protoc: The extension a.x cannot be required. *)
+   V-ext-required      protoc: The extension a.x cannot be required.
+   V-p3-group          protoc: Groups are not supported in proto3 syntax.
+   V-ed-group          protoc: Group syntax is no longer supported in editions. ... *)
 LabelRule(F, d) ==
   LET dl == F.decls[d]
   IN IF IsMap(dl) THEN (IF dl.label # "" THEN {"V-map-label"} ELSE {})
@@ -149,6 +162,8 @@ LabelRule(F, d) ==
              [] OTHER -> (IF dl.label = "optional" THEN {"V-ed-optional"}
                           ELSE IF dl.label = "required" THEN {"V-ed-required"} ELSE {}))
           \cup (IF dl.kind = "ext" /\ dl.label = "required" THEN {"V-ext-required"} ELSE {})
+          \cup (IF dl.gof # 0 /\ F.syntax = "proto3" THEN {"V-p3-group"} ELSE {})
+          \cup (IF dl.gof # 0 /\ F.syntax = "editions" THEN {"V-ed-group"} ELSE {})
 
 (* numbers of fields and extensions
    V-num-positive       protoc: Field numbers must be positive integers.
@@ -186,14 +201,14 @@ MsgRule(F, m) ==
    V-enum-empty        protoc: Enums must contain at least one value.
    V-enum-first-zero   protoc: The first enum value must be zero for open enums.   (proto3, edition 2023)
    V-enum-dup-num      protoc: "zb" uses the same enum value as "za". If this is intended, set
-                               'option allow_alias = true;' to the enum definition.
+                               'option allow_alias = true;' to the enum definition.   (not with allow_alias)
    V-oneof-empty       protoc: Oneof must have at least one field. *)
 OpenEnums(F) == F.syntax # "proto2"
 EnumRule(F, e) ==
   LET vs == KidSeq(F, e)
   IN IF vs = <<>> THEN {"V-enum-empty"}
      ELSE (IF OpenEnums(F) /\ F.decls[vs[1]].num # 0 THEN {"V-enum-first-zero"} ELSE {})
-          \cup (IF \E j, k \in 1..Len(vs) : j < k /\ F.decls[vs[j]].num = F.decls[vs[k]].num
+          \cup (IF ~F.decls[e].alias /\ \E j, k \in 1..Len(vs) : j < k /\ F.decls[vs[j]].num = F.decls[vs[k]].num
                   THEN {"V-enum-dup-num"} ELSE {})
 OneofRule(F, o) == IF KidSeq(F, o) = <<>> THEN {"V-oneof-empty"} ELSE {}
 
@@ -242,8 +257,8 @@ StructBroken(F) ==
    V-closed-enum-implicit   protoc: Enum type "a.e" is not an open enum, but is used in "b.m" which is a
                             proto3 message type.     (modelled for a proto3 field without label outside a oneof)
    V-default-message     protoc: Messages can't have default values.
-   V-default-enum-value  protoc: Enum type "a.e" has no value named "zc". / Default value for an enum
-                                 field must be an identifier. *)
+   V-default-enum-value  protoc: Enum type "a.e" has no value named "zc".
+   V-default-enum-ident  protoc: Default value for an enum field must be an identifier.   (a number) *)
 DeclOfRef(ws, e) == ws[e.deffile].decls[e.defdecl]
 IsOptionsMsg(ws, e) == ws[e.deffile].builtin
 (* extension ranges of a resolved extendee: the modelled option messages extend 1000 to max *)
@@ -258,6 +273,7 @@ FieldRefRule(ws, g, r) ==
           THEN {"V-closed-enum-implicit"} ELSE {})
        \cup (IF dl.dflt # "" /\ ~IsMap(dl)
                THEN (IF e.kind = "message" THEN {"V-default-message"}
+                     ELSE IF dl.dflt = "7" THEN {"V-default-enum-ident"}
                      ELSE IF dl.dflt \notin EnumValueNames(ws, e) THEN {"V-default-enum-value"} ELSE {})
                ELSE {})
      ELSE IF r.slot = "extendee" /\ e.outcome = "ok" THEN
@@ -287,8 +303,14 @@ ValidV(ws) == Broken(ws) = {}
      member or a map value: protoc's ValidateProto3Field and the documented behaviour of the
      project may differ there; not decided here
    - explicit json_name values must not collide with any default or custom JSON name of a sibling
-   - extensions carry no json_name *)
+   - extensions carry no json_name
+   - allow_alias only on an enum that does have two values with one number (whether an unused
+     allow_alias is an error in protoc 33 is not certain) *)
 CoveredX(ws, refs) ==
+  /\ \A g \in Files(ws) : \A e \in OfKind(ws[g], "enum") :
+       ws[g].decls[e].alias =>
+         LET vs == KidSeq(ws[g], e)
+         IN \E j, k \in 1..Len(vs) : j < k /\ ws[g].decls[vs[j]].num = ws[g].decls[vs[k]].num
   /\ \A fr \in refs :
        LET F == ws[fr[1]]  dl == F.decls[fr[2].decl]  e == fr[2].exp
        IN (fr[2].slot = "type" /\ e.outcome = "ok" /\ e.kind = "enum" /\ F.syntax = "proto3"
@@ -306,7 +328,8 @@ CoveredX(ws, refs) ==
 (* DESCRIPTOR: the abstract projection of the FileDescriptorProto protoc writes for a valid file
    (--descriptor_set_out, no source info).  Default-valued members are omitted from the records.
      D-label        optional/required/repeated; no label => LABEL_OPTIONAL; map => LABEL_REPEATED
-     D-type         scalar => TYPE_<SCALAR>; reference => TYPE_MESSAGE / TYPE_ENUM by the resolved kind
+     D-type         scalar => TYPE_<SCALAR>; reference => TYPE_MESSAGE / TYPE_ENUM by the resolved kind;
+                    a group => TYPE_GROUP, its message is an ordinary nested message at the group's place
      D-type-name    "." + full name of the resolved element (also extendee, input_type, output_type)
      D-json-name    always present: explicit json_name, else N-json-name (also on extensions)
      D-oneof-index  members of real oneofs: index of the oneof in source order
@@ -317,6 +340,8 @@ CoveredX(ws, refs) ==
                     is repeated TYPE_MESSAGE with that type
      D-ranges       extension_range / reserved_range with exclusive end
      D-deps         dependency in source order, public_dependency = 0-based indices
+     D-options      options.allow_alias of an enum, options.deprecated of a field (the two modelled standard
+                    options) appear as members allow_alias / deprecated; any other option is unexpected
      D-syntax       syntax unset for proto2, "proto3", or "editions" + edition EDITION_2023 *)
 Dot(s) == "." \o s
 LabelD(dl) == IF dl.label = "repeated" \/ IsMap(dl) THEN "LABEL_REPEATED"
@@ -330,6 +355,7 @@ FieldD(ws, env, g, d, oneofPos) ==
       x == IF dl.kind = "ext" THEN Outcome(ws, env, g, d, "extendee", dl.extendee) ELSE [fqn |-> ""]
   IN [name |-> dl.name, number |-> dl.num, label |-> LabelD(dl),
       type |-> IF IsMap(dl) THEN "TYPE_MESSAGE"
+               ELSE IF dl.gof # 0 THEN "TYPE_GROUP"
                ELSE IF IsRef(dl.type) THEN (IF e.kind = "message" THEN "TYPE_MESSAGE" ELSE "TYPE_ENUM")
                ELSE ScalarType[dl.scalar],
       json_name |-> IF dl.json # "" THEN dl.json ELSE JsonNameOf(dl.name)]
@@ -339,10 +365,12 @@ FieldD(ws, env, g, d, oneofPos) ==
      @@ Opt(oneofPos > 0, [oneof_index |-> oneofPos - 1])
      @@ Opt(F.syntax = "proto3" /\ dl.label = "optional", [proto3_optional |-> TRUE])
      @@ Opt(dl.dflt # "", [default_value |-> dl.dflt])
+     @@ Opt(dl.dep, [deprecated |-> TRUE])
 
 EnumD(F, e) ==
   [name |-> F.decls[e].name,
    value |-> MapSeq(KidSeq(F, e), LAMBDA v : [name |-> F.decls[v].name, number |-> F.decls[v].num])]
+  @@ Opt(F.decls[e].alias, [allow_alias |-> TRUE])
 
 (* the synthetic entry message of map field d *)
 MapEntryD(ws, env, g, d) ==
@@ -421,6 +449,8 @@ DeclVX(d) ==
   @@ Opt(d.mapkey # "", [mapkey |-> d.mapkey]) @@ Opt(d.dflt # "", [dflt |-> d.dflt])
   @@ Opt(d.json # "", [json |-> d.json]) @@ Opt(d.xr # <<>>, [xr |-> d.xr]) @@ Opt(d.rr # <<>>, [rr |-> d.rr])
   @@ Opt(d.rn # <<>>, [rn |-> d.rn]) @@ Opt(d.cs, [cs |-> TRUE]) @@ Opt(d.ss, [ss |-> TRUE])
+  @@ Opt(d.alias, [alias |-> TRUE]) @@ Opt(d.dep, [dep |-> TRUE])
+  @@ Opt(d.grp, [grp |-> TRUE]) @@ Opt(d.gof # 0, [gof |-> d.gof])
 FileVX(F) ==
   [path |-> F.path, pkg |-> F.pkg, syntax |-> F.syntax, imports |-> F.imports, x |-> TRUE,
    decls |-> MapSeq(IdxSeq(Len(F.decls)), LAMBDA d : DeclVX(F.decls[d]))]
